@@ -3,7 +3,7 @@ case: ( site path env pattern )   site 0 FileAppender, 1 RollingFileAppender, 2 
   path / pattern: code points; env: ((name value) ...) the variables that are set.
   For site 2 `pattern` contains "{}" and `path` = pattern with "{}" -> "0" (what reaches expand_env_vars).
 impl:  ( alnum obs )            obs = (1 relpath) | (0 n) | (2)
-model: ( model spec no_forged ) model = (1 cps) | "panic", spec = cps (one-pass expansion)"""
+model: ( model spec ) model = (1 cps) | "panic", spec = cps (one-pass expansion; model = spec is a theorem)"""
 import vcommon as vc
 
 RULE = ("paths are concatenations of 1-8 pieces drawn from: literal text (ASCII, non-ASCII incl. 4-byte, stray '$' '{' '}', "
@@ -11,13 +11,14 @@ RULE = ("paths are concatenations of 1-8 pieces drawn from: literal text (ASCII,
         "to set and to unset variables (names with '_', '.', digits first, non-ASCII letters, code points whose "
         "alphanumeric status is decided by the real char::is_alphanumeric), repeated and adjacent references, malformed "
         "references (empty name, illegal first character, illegal inner character incl. non-ASCII, missing brace in the "
-        "middle and at the very end, nested); variable values are '$'-free (empty, containing '{' '}' 'ENV' 'ENV{B}' "
-        "'{}' '/', non-ASCII); variables with illegal names are sometimes set too. A template stream builds forged "
-        "references on purpose (value + neighbouring literals spell a later reference). Every path is run through the "
+        "middle and at the very end, nested); variable values are arbitrary (empty, containing '{' '}' 'ENV' 'ENV{B}' "
+        "'{}' '/', non-ASCII, '$', '$ENV{', whole references to set/unset variables); variables with illegal names "
+        "are sometimes set too. A template stream builds forged references on purpose (a value and its neighbouring "
+        "literals spell another reference: the class of the fixed finding F-C19-forged-ref). Every path is run through the "
         "three call sites (the roller with '{}' inserted at a random place). corpus: the DESIGN witness and hand-made "
         "edge cases. non-trivial = the path contains '$ENV{' ; distinct = distinct case line")
-ASSUMPTIONS = ["variable values contain no '$' (the property's quantifier) and are valid UTF-8",
-               "the temp-root prefix put before the path contains no '$', so it takes no part in the expansion",
+ASSUMPTIONS = ["variable values are valid UTF-8 (they may contain '$' and references: wider than the property's quantifier)",
+               "the temp-root prefix put before the path contains no '$', so it takes no part in the expansion (theorem C19_prefix)",
                "paths are valid UTF-8 without NUL; no generated component is '.', '..' or longer than 255 bytes",
                "FixedWindowRoller substitutes '{}' before expanding (the substituted text is what the model receives)"]
 EXHAUSTIVE = {"quick": False, "thorough": False}
@@ -29,7 +30,8 @@ NAMES = ["A", "B", "C", "AB", "a.b", "_x", "x_1", "1x", "N.", "_", "Ab9", "é", 
          "B.log", "A.B", "x"]
 BAD_NAMES = ["", ".a", "-a", "a-b", "a b", "a€", "a{b", " A", "A ", "a/b", "é-", "á", "a:b", "😀", "a😀", "a}b"]
 VALUES = ["vb", "", "v{", "}", "{", "ENV{B}", "NV{B}", "{B}", "B}", "B", "ENV", "ENV{", "a/b", "/e", "é日", "{}", "x.y",
-          "ENV{A}", "ENV{a.b}", "NV{AB}", "V{C}", "E", "ENV{B}x", "val", "A", "ENV{_}", "😀", "{A}", "ENV{é}", "_"]
+          "ENV{A}", "ENV{a.b}", "NV{AB}", "V{C}", "E", "ENV{B}x", "val", "A", "ENV{_}", "😀", "{A}", "ENV{é}", "_",
+          "$", "$ENV{B}", "x$ENV{A}y", "$ENV{", "$$", "$ENV{A}$ENV{B}", "$ENV{a.b}", "$E", "v$", "$ENV{_}", "$ENV{é}"]
 LITS = ["x", "log", "a.b", ".log", "-", "_", " ", "é", "日本", "😀", "$", "{", "}", "$$", "${", "$E", "$EN", "$ENV",
         "$ENV{", "ENV{", "$env{A}", "$ENV {A}", "${A}", "$A", "d/x", "/e", "a/b", "E", "NV{", "B}", "{B}", "}}", "A", "B",
         "$ENV{}", "€", "ß", "0", "a²", "́x", "\t", "$ENV{$", "$ENV{{", "%A%", "~"]
@@ -156,6 +158,8 @@ def corpus():
         ("$ENV{a.b}", {"a.b": "v"}), ("$ENV{_}", {"_": "u"}), ("$ENV{1x}", {"1x": "d"}),
         ("q$ENV{A}", {"A": ""}), ("$ENV{A}/f", {"A": "d/e"}), ("$ENV{B}-$$ENV{A}", {"A": "ENV{B}", "B": "vb"}),
         ("$ENV{$ENV{A}}-$ENV{B}", {"A": "B", "B": "vb"}), ("😀$ENV{A}😀$ENV{A", {"A": "é"}),
+        ("$ENV{A}-$ENV{B}", {"A": "$ENV{B}", "B": "$ENV{A}"}), ("$ENV{A}", {"A": "$ENV{A}"}), ("$ENV{A}{B}", {"A": "$ENV", "B": "w"}),
+        ("x$ENV{A}$ENV{B}", {"A": "$ENV{", "B": "B}"}), ("$ENV{A}ENV{B}", {"A": "$", "B": "w"}),
     ]
     for p, e in hand:
         out += with_sites(r, p, e)
@@ -214,22 +218,17 @@ def _matches(cpl, obs):
 def compare(c, iv, mv):
     if not isinstance(iv, list) or len(iv) != 2:
         return "the call site did not return normally: %r" % (iv,)
-    model, spec, nf = mv
+    model, spec = mv
     if not isinstance(model, list):
-        return "the model panics on this path (expand_total says it cannot)"
+        return "the model panics on this path (C19_expand_total says it cannot)"
+    if model[1] != spec:
+        return "model %r differs from the one-pass meaning %r (C19_expand_is_one_pass says it cannot)" % (
+            _text(model[1]), _text(spec))
     if _matches(spec, iv[1]) in (True, None):
         return None
     if iv[1][:1] == [1]:
         return "file created at %r, one-pass expansion is %r" % (_text(iv[1][1]), _text(spec))
     return "observation %r, one-pass expansion is %r" % (iv[1], _text(spec))
-
-
-def known_finding(c, iv, mv):
-    model, spec, nf = mv
-    if nf == 0 and isinstance(model, list) and isinstance(iv, list) and len(iv) == 2 \
-            and _matches(model[1], iv[1]) in (True, None):
-        return "F-C19-forged-ref"
-    return None
 
 
 def nontrivial(c):
